@@ -31,12 +31,17 @@ Theorem C06_named_block_at_most_once : forall c k1 k2 b, (k1 < k2 < length c)%na
 Proof. exact named_block_at_most_once. Qed.
 Print Assumptions C06_named_block_at_most_once.
 
+Theorem C06_attr_lookup_towards_base : forall c i x j,
+  attr_from c i x = Some j -> (i <= j)%nat /\ binds_attr c j x /\ forall m, (i <= m < j)%nat -> ~ binds_attr c m x.
+Proof. exact attr_lookup_towards_base. Qed.
+Print Assumptions C06_attr_lookup_towards_base.
+
 (* non-vacuity: three templates; the block declared in two of them renders once, at the base-most
    declarer's position, with the most derived definition; the base's body runs first *)
 Example C06_nonvacuous :
-  let t0 := {| members := [(0, [IText 10; IBlock 5; ICall WParent 7]); (5, [IText 15])] |} in
-  let t1 := {| members := [(0, [IText 20; IBlock 5; ICall WNext 0]); (5, [IText 25]); (7, [IText 27])] |} in
-  let t2 := {| members := [(0, [IText 30; ICall WNext 0; ICall WSelf 7])] |} in
+  let t0 := {| members := [(0, [IText 10; IBlock 5; ICall WParent 7; IAttr WSelf 9]); (5, [IText 15])]; attrs := [] |} in
+  let t1 := {| members := [(0, [IText 20; IBlock 5; ICall WNext 0]); (5, [IText 25]); (7, [IText 27])]; attrs := [9] |} in
+  let t2 := {| members := [(0, [IText 30; ICall WNext 0; ICall WSelf 7])]; attrs := [9] |} in
   render [t0; t1; t2] =
-    ([EEnter 2 0; EText 30; EEnter 1 0; EText 20; EEnter 0 5; EText 15; EEnter 0 0; EText 10; EEnter 1 7; EText 27; EEnter 1 7; EText 27], true).
+    ([EEnter 2 0; EText 30; EEnter 1 0; EText 20; EEnter 0 5; EText 15; EEnter 0 0; EText 10; EEnter 1 7; EText 27; EAttr 1 9; EEnter 1 7; EText 27], true).
 Proof. vm_compute. reflexivity. Qed.
